@@ -31,7 +31,7 @@ var e1Rules = map[string][3]string{
 	"C08": {"stall plans: every offset of one first record; hostile plans: one mutated first record plus hostile record streams on both sides; non-trivial = all monitors evaluated; distinct = per stall offset (region, window, lateness) resp. (mutation kinds, item kinds, outcome)",
 		"stall after every byte offset of the first record, for each stall plan", "hostile_past_newconn,both_directions_at_once"},
 	"C09": {"one authentic flight replayed against every ordered list of 1..4 keys from {target} + <= 3 others; an evaluation = one list; distinct = per plan (pool size, collisions, retry, layout classes)",
-		"all ordered key lists of length 1..4 over the plan's key pool", "config_id_collision,retry_replayed,earlier_connection_other_key,context_ends_with_last_octet"},
+		"all ordered key lists of length 1..4 over the plan's key pool", "config_id_collision,retry_replayed,earlier_connection_other_key,context_ends_with_last_octet,connections_in_parallel"},
 	"C10": {"one cell of the action grid (where the context ends relative to the hello and to NewConn's return, how the transport and the context react) x GOMAXPROCS, repeated 24-48 times; distinct = the grid cell",
 		"", "ctx_end_after_return,ctx_end_during_newconn_ok,ctx_end_while_blocked,hrr_after_ctx_end"},
 }
